@@ -317,14 +317,18 @@ func uHook(c *server.Peer, cmd string, args ...string) bool {
 			}
 			return true
 		}
+		// the stamp is taken (by every SET) before the command is handed to miniredis: whatever
+		// can be read back was stamped before it was stored
 		if val == "*" {
-			if ks.nfStores.Add(1) == 1 {
+			if ks.firstNF.Load() == 0 {
 				ks.firstNF.CompareAndSwap(0, kit.Stamp())
 			}
+			ks.nfStores.Add(1)
 		} else {
-			if ks.valStores.Add(1) == 1 {
+			if ks.firstVal.Load() == 0 {
 				ks.firstVal.CompareAndSwap(0, kit.Stamp())
 			}
+			ks.valStores.Add(1)
 		}
 	}
 	return false
